@@ -65,7 +65,7 @@ static void build_base(TopologyKernel &m, unsigned b) {
     tet_on(m, 0, 1, 2, 3);
     tet_on(m, 0, 4, 5, 6);
     break; }
-  case B_TET3_RING: {  // three tets closed around edge (0,1), ring 2,3,4: 5V 9E 9F 3C
+  case B_TET3_RING: {  // three tets closed around edge (0,1), ring 2,3,4: 5V 10E 9F 3C
     m.add_n_vertices(5);
     FH a2 = tri(m, 0, 1, 2), a3 = tri(m, 0, 1, 3), a4 = tri(m, 0, 1, 4);
     // tet (0,1,2,3): faces (0,1,2) (0,3,1) (1,3,2) (0,2,3)
@@ -121,11 +121,15 @@ struct Snap {
   int fval[MAXF]; int fhe[MAXF][MAXFV]; bool fdel[MAXF];
   int cval[MAXC]; int chf[MAXC][MAXCV]; bool cdel[MAXC];
   bool overflow;
+  int vid[MAXV], eid[MAXE], fid[MAXF], cid[MAXC];   // identity tracking for the reference model (original index of the entity in each slot)
 };
 
 static void take_snapshot(const TopologyKernel &m, Snap &s) {
   s.overflow = false;
-  for (int i = 0; i < MAXV; ++i) s.vdel[i] = false;
+  for (int i = 0; i < MAXV; ++i) { s.vdel[i] = false; s.vid[i] = i; }
+  for (int i = 0; i < MAXE; ++i) s.eid[i] = i;
+  for (int i = 0; i < MAXF; ++i) s.fid[i] = i;
+  for (int i = 0; i < MAXC; ++i) s.cid[i] = i;
   for (int i = 0; i < MAXE; ++i) { s.efrom[i] = 0; s.eto[i] = 0; s.edel[i] = false; }
   for (int i = 0; i < MAXF; ++i) { s.fval[i] = 0; s.fdel[i] = false; for (int k = 0; k < MAXFV; ++k) s.fhe[i][k] = 0; }
   for (int i = 0; i < MAXC; ++i) { s.cval[i] = 0; s.cdel[i] = false; for (int k = 0; k < MAXCV; ++k) s.chf[i][k] = 0; }
